@@ -381,7 +381,9 @@ CHECKS["C08"] = {
     "units": [
         {"pkg": ".", "run": "^TestVerif_C08_", "inst": ["store_message.go", "internal/queue/simple.go", "internal/queue/priority.go"], Q: {"timeout": 900}, T: {"timeout": 3400, "shards": 12}},
     ],
-    "mandatory_labels": {"all": ["pipeline/dfs-schedules", "pipeline/registration-between-lookup-and-park", "pipeline/undecryptable-below-decryptable", "pipeline/with-cancel", "pipeline/arrival-beyond-key-window", "group-context", "group-context/receiver-is-a-sibling-device"]},
+    "mandatory_labels": {"all": ["pipeline/dfs-schedules", "pipeline/registration-between-lookup-and-park", "pipeline/undecryptable-below-decryptable", "pipeline/with-cancel", "pipeline/arrival-beyond-key-window", "group-context"],
+                         "thorough": ["pipeline/dfs-schedules", "pipeline/registration-between-lookup-and-park", "pipeline/undecryptable-below-decryptable", "pipeline/with-cancel", "pipeline/arrival-beyond-key-window", "group-context",
+                                      "group-context/receiver-is-a-sibling-device", "group-context/announcement-during-activation"]},
 }
 
 # ---- layers and dimensions added after the first version (see DESIGN.md section 9 and appendix C.3)
